@@ -1,7 +1,7 @@
 PROP_ID = "C17"
 PROP = dict(
     imports=["Server.Backup", "Corr.Run_C17"],
-    case_type="Run_C17.case", check="Run_C17.check", shrink=True, shrink_field="writes",
+    case_type="Run_C17.case", check="Run_C17.check", shrink=True, shrink_field="ops",
     harness_timeout={"quick": 900, "thorough": 9000},
     technique=("Rocq proof (model of the periodicBackup loop over arbitrary timelines: change-driven, >= 60 s apart, retry, catch-up and quiet, bounded wake-ups, "
                "return at cancellation, body = file of the generation read) + the real loop (verif hook) in a testing/synctest bubble against an in-memory object "
@@ -17,14 +17,16 @@ PROP = dict(
                 "uploads around the 60 s and 5 min marks, writes made from inside the store's handler, cancellation at arbitrary instants incl. mid-upload): upload "
                 "instants, which file version each body is byte-identical to (every version is hashed after each write; the body must also open with the key), "
                 "acknowledgements and the exit instant are compared with the model by the kernel, together with clause monitors on the observed log - among them: two consecutive "
-                "acknowledged uploads never carry identical bytes, and the write generation at the end is exactly 1 + the number of successful writes (timelines contain write "
-                "attempts made while the state directory is unreachable, and list/get/info calls, at instants of their own)."),
+                "acknowledged uploads never carry identical bytes, and the write generation at the end is exactly 1 + the number of successful writes (timelines contain every "
+                "mutating call kind - put incl. de-duplicated, activate incl. no-op, delete-version, delete incl. absent - whether one is a write is decided by the store model "
+                "run over the calls (= C02's needs_save and a successful save, proved); calls made while the state directory is unreachable; list/get/info calls), and at the end of "
+                "every timeline the newest acknowledged upload is byte-identical to the live file whenever the model has caught up."),
     level_note=("Trusted: Coq kernel+VM, testing/synctest's virtual clock, the AWS SDK request path; a read of the live file returning one complete version rests on C04 "
                 "(atomic replacement) and is tested here by hashing; CPU spinning is detected by a real-time watchdog (virtual time cannot advance), the number of "
                 "WriteGen calls itself is not observable without a further hook; no two timeline events fall on the same virtual instant (generator)."),
     rule=("260 generated timelines (thorough 6000) of kinds bursts / idle-hours / failures / racing / slow-uploads / cancel-early / mixed / failed-writes (every kind mixes in ~12 % failing write attempts and ~12 % reads; "
           "failed-writes: 45 % / 30 %); one case = one run of the task "
-          "from start to cancellation; non-trivial if it has >= 3 uploads and >= 2 writes, or >= 2 failed write attempts; distinct by timeline"),
+          "from start to cancellation; non-trivial if it has >= 3 uploads and >= 2 mutating calls, or >= 2 failing calls; distinct by timeline"),
     explain=("the uploads the object store received (instants, file versions, acknowledgements) or the instant the task returned differ from the model of the backup loop "
              "(or: the task did not return after cancellation / spun without sleeping)"),
     assumptions=["virtual time: reading the generation, reading the file and issuing the request take no time", "the object store honours the request context",
